@@ -320,6 +320,11 @@ def apply_cases(ctx, rnd):
             for form in ('mul', 'rmul', 'div'):
                 cs.append(dict(op='money_rate', form=form, kind='mul' if form != 'div' else 'div', cur=cur,
                                an=5, ad=1, r=r, mode='ROUND_HALF_EVEN', rep='dec'))
+        # while a money converter that knows every pair is registered: the same answers, the same rejections
+        for cur in md:
+            for form in ('mul', 'rmul', 'div'):
+                cs.append(dict(op='money_rate', form=form, kind='mul' if form != 'div' else 'div', cur=cur,
+                               an=1234, ad=100 if md[cur] else 1, r=r, mode='ROUND_HALF_EVEN', rep='dec', conv=True))
         # the rate object produced by the library itself (inverted once / twice): whatever it stores is what counts
         for via in ('inv', 'inv2'):
             for form in ('mul', 'rmul', 'div'):
